@@ -28,9 +28,31 @@ def _objective_entry(task, x):
             hook(sim, task, desc, x)        # membership check, counting, fault injection (may raise)
     val = objectives.evaluate(desc, x)
     if sim is not None and not sim.aborting:
+        fp = sim.fault_plan
+        if fp is not None and getattr(fp, "scribble", False):
+            _scribble(sim, x)
         sim.event("obj_ret", "")
         sim.yield_point("obj_ret")
     return val
+
+
+def _scribble(sim, x):
+    """Foreign-party misbehaviour: the user's objective works in place on its argument (sorts it, rescales it,
+    appends to it).  Legal user code - the library must not let that leak into what it stores or evaluates next."""
+    try:
+        if isinstance(x, list):
+            for i in range(len(x)):
+                if isinstance(x[i], list):
+                    x[i][:] = [-1 for _ in x[i]] + [-1]
+                else:
+                    x[i] = 1e300
+            x.append(1e300)
+            sim.count("fault_fired:objective_scribbles")
+        elif hasattr(x, "fill"):
+            x.fill(1e300)
+            sim.count("fault_fired:objective_scribbles")
+    except Exception:
+        pass
 
 
 def make_task_class(name):
